@@ -133,7 +133,8 @@ class Model:
 
     def grad(self, x, y):
         if self.q is not None:
-            h = 1e-4
+            # central difference; the step follows the size of the surface (its truncation error goes with h^2 c^2 / size)
+            h = 1e-4 * min(1.0, self.lim / 12.0)
             zx = (self.sag(x + h, y) - self.sag(x - h, y)) / (2 * h)
             zy = (self.sag(x, y + h) - self.sag(x, y - h)) / (2 * h)
             return zx, zy
